@@ -98,6 +98,7 @@ def c08_oracle(lines, out):
 
 class C08(Prop):
     pid = "C08"
+    default_mode = "gc-run"
     design_ref = "DESIGN.md section 6 C08"
     rule = ("gc scripts over synthetic objects on the real GcCtx/GcNode: (a) breadth-first enumeration of ALL "
             "contract-respecting operation sequences up to the tier's depth over <=3 objects, <=2 edges and <=2 handles "
@@ -158,6 +159,7 @@ FAMILIES = ["ladder", "ladder_cyc", "fan", "fan_cyc", "chain", "chain_cyc", "cli
 
 class C16(Prop):
     pid = "C16"
+    default_mode = "gc-run"
     design_ref = "DESIGN.md section 6 C16"
     rule = ("graph families with sharing (ladders of diamonds, fans, chains, cliques; acyclic and cyclic; wholly dead and with "
             "a live top that is dropped afterwards) at growing sizes, plus the C08 enumeration and random scripts; the "
